@@ -36,6 +36,9 @@ func specDefaultKnown(t parser.ValueType) bool {
 //@   requires[C13] converter-given: converter != nil
 //@   ensures[C14] fresh-parser-per-run: calls(New) == 1 && calls(Parse) == 1 && seq(New, 0) < seq(Parse, 0)
 //@   ensures[C13] script-or-error-never-both: err != nil && calls(Dump) == 0 ==> result0 == ""
+//@   ensures[C13,C19] a-failed-parse-yields-the-error-and-no-script: calls(Parse) == 1 && (res(Parse, 0, 1) != nil ==> err != nil && result0 == "" && calls(evaluate) == 0 && calls(Dump) == 0)
+//@   ensures[C13,C19] a-failed-conversion-yields-the-error-and-no-script: calls(evaluate) == 1 && res(evaluate, 0, 0) != nil ==> err != nil && result0 == "" && calls(Dump) == 0
+//@   ensures[C13,C14] the-script-is-what-the-converter-dumps-after-a-successful-conversion: calls(Dump) <= 1 && (calls(Dump) == 1 ==> calls(evaluate) == 1 && res(evaluate, 0, 0) == nil && seq(evaluate, 0) < seq(Dump, 0) && result0 == res(Dump, 0, 0) && err == res(Dump, 0, 1))
 //@   ensures[C14] only-the-converter-is-kept: sameExcept(t, old(t), "converter")
 //
 //@ func BoolToString
@@ -71,12 +74,15 @@ func specDefaultKnown(t parser.ValueType) bool {
 //@   ensures[C01] plumbing: err == nil ==> arg(UnaryOperation, 0, 0) == res(evaluateExpression, 0, 0).firstValue() && arg(UnaryOperation, 0, 1) == operation.Operator() && len(result0.values) == 1 && result0.values[0] == res(UnaryOperation, 0, 0)
 //
 //@ func (*transpiler).evaluateBinaryOperation
+//@   ensures[C01,C05,C08] the-operation-is-emitted-by-the-converter: calls(evaluateOperation) == 1 && arg(evaluateOperation, 0, 2) == "method:BinaryOperation"
 //@   ensures[C04] delegates-once: calls(evaluateOperation) == 1 && arg(evaluateOperation, 0, 1) == asOperationBinary(operation) && arg(evaluateOperation, 0, 3) == valueUsed && result0 == res(evaluateOperation, 0, 0) && err == res(evaluateOperation, 0, 1)
 //
 //@ func (*transpiler).evaluateCompareOperation
+//@   ensures[C01,C05,C08] the-operation-is-emitted-by-the-converter: calls(evaluateOperation) == 1 && arg(evaluateOperation, 0, 2) == "method:Comparison"
 //@   ensures[C04] delegates-once: calls(evaluateOperation) == 1 && arg(evaluateOperation, 0, 1) == asOperationComparison(operation) && arg(evaluateOperation, 0, 3) == valueUsed && result0 == res(evaluateOperation, 0, 0) && err == res(evaluateOperation, 0, 1)
 //
 //@ func (*transpiler).evaluateLogicalOperation
+//@   ensures[C01,C05,C08] the-operation-is-emitted-by-the-converter: calls(evaluateOperation) == 1 && arg(evaluateOperation, 0, 2) == "method:LogicalOperation"
 //@   ensures[C04] delegates-once: calls(evaluateOperation) == 1 && arg(evaluateOperation, 0, 1) == asOperationLogical(operation) && arg(evaluateOperation, 0, 3) == valueUsed && result0 == res(evaluateOperation, 0, 0) && err == res(evaluateOperation, 0, 1)
 //
 //@ func (*transpiler).evaluateGroup
@@ -167,8 +173,8 @@ func specDefaultKnown(t parser.ValueType) bool {
 //
 //@ func (*transpiler).evaluateVarDefinition
 //@   requires[C13] one-value-per-variable: len(definition.Values()) == len(definition.Variables())
-//@   loop @"range definition.Variables()" invariant[C01,C04] value-k-into-variable-k-so-far: calls(evaluateAssignedValues) == 1 && calls(VarDefinition) == rangeindex + 1 && forall(k, 0, rangeindex + 1, arg(VarDefinition, k, 0) == definition.Variables()[k].Name() && arg(VarDefinition, k, 1) == res(evaluateAssignedValues, 0, 0)[k] && arg(VarDefinition, k, 2) == definition.Variables()[k].Global() && seq(evaluateAssignedValues, 0) < seq(VarDefinition, k))
-//@   ensures[C01,C02,C04] all-values-read-then-value-k-into-variable-k: result == nil ==> calls(evaluateAssignedValues) == 1 && arg(evaluateAssignedValues, 0, 1) == definition.Values() && calls(VarDefinition) == len(definition.Variables()) && forall(k, 0, len(definition.Variables()), arg(VarDefinition, k, 0) == definition.Variables()[k].Name() && arg(VarDefinition, k, 1) == res(evaluateAssignedValues, 0, 0)[k] && arg(VarDefinition, k, 2) == definition.Variables()[k].Global() && seq(evaluateAssignedValues, 0) < seq(VarDefinition, k))
+//@   loop @"range definition.Variables()" invariant[C01,C04,C10] value-k-into-variable-k-so-far: calls(evaluateAssignedValues) == 1 && calls(VarDefinition) == rangeindex + 1 && forall(k, 0, rangeindex + 1, arg(VarDefinition, k, 0) == definition.Variables()[k].Name() && arg(VarDefinition, k, 1) == res(evaluateAssignedValues, 0, 0)[k] && arg(VarDefinition, k, 2) == definition.Variables()[k].Global() && seq(evaluateAssignedValues, 0) < seq(VarDefinition, k))
+//@   ensures[C01,C02,C04,C10] all-values-read-then-value-k-into-variable-k: result == nil ==> calls(evaluateAssignedValues) == 1 && arg(evaluateAssignedValues, 0, 1) == definition.Values() && calls(VarDefinition) == len(definition.Variables()) && forall(k, 0, len(definition.Variables()), arg(VarDefinition, k, 0) == definition.Variables()[k].Name() && arg(VarDefinition, k, 1) == res(evaluateAssignedValues, 0, 0)[k] && arg(VarDefinition, k, 2) == definition.Variables()[k].Global() && seq(evaluateAssignedValues, 0) < seq(VarDefinition, k))
 //
 //@ func (*transpiler).evaluateVarAssignment
 //@   requires[C13] one-value-per-variable: len(assignment.Values()) == len(assignment.Variables())
